@@ -14,10 +14,17 @@ package nodeslo
 // the NodeSLO objects itself); the observable is the DELIVERED NodeSLO.Spec read back from the
 // client and flattened by reflection.
 //
-// input  = nsecs (merge? default-tree)*  nnodes (nlabels (key value)*)*  nops op*   (see coq/C20/Extract.v)
+// Besides ConfigMap events the history contains controller restarts (a new handler and reconciler on
+// the same API objects), Node events (created, relabelled, re-annotated with
+// node.koordinator.sh/network-bandwidth, deleted) and third-party deletes / overwrites of NodeSLO
+// objects. Section texts are rendered with optional characters before / after the JSON document.
+//
+// input  = nsecs (merge? bwidx default-tree)*  nnodes node*  nops op*   (see coq/C20/Codec.v)
 
 import (
+	"bytes"
 	"context"
+	"encoding/json"
 	"fmt"
 	"io"
 	"math/rand"
@@ -31,19 +38,24 @@ import (
 	"k8s.io/apimachinery/pkg/api/resource"
 	metav1 "k8s.io/apimachinery/pkg/apis/meta/v1"
 	"k8s.io/apimachinery/pkg/runtime"
+	"k8s.io/apimachinery/pkg/runtime/serializer"
 	"k8s.io/apimachinery/pkg/types"
 	"k8s.io/apimachinery/pkg/util/intstr"
-	clientgoscheme "k8s.io/client-go/kubernetes/scheme"
+	k8stesting "k8s.io/client-go/testing"
 	"k8s.io/client-go/tools/record"
 	"k8s.io/client-go/util/workqueue"
 	"k8s.io/klog/v2"
 	"sigs.k8s.io/controller-runtime/pkg/client"
 	"sigs.k8s.io/controller-runtime/pkg/client/fake"
 	"sigs.k8s.io/controller-runtime/pkg/event"
+	crhandler "sigs.k8s.io/controller-runtime/pkg/handler"
+	"sigs.k8s.io/controller-runtime/pkg/predicate"
 	"sigs.k8s.io/controller-runtime/pkg/reconcile"
 
 	"github.com/koordinator-sh/koordinator/apis/configuration"
+	"github.com/koordinator-sh/koordinator/apis/extension"
 	slov1alpha1 "github.com/koordinator-sh/koordinator/apis/slo/v1alpha1"
+	"github.com/koordinator-sh/koordinator/pkg/slo-controller/nodemetric"
 	"github.com/koordinator-sh/koordinator/pkg/util/sloconfig"
 )
 
@@ -292,9 +304,23 @@ func (c *vtC20Cur) next() int64 {
 }
 
 const (
-	vtC20StyleNulls   = 16 // absent fields are written as explicit null
-	vtC20StyleUnknown = 32 // every object gets an unknown extra field
+	vtC20StyleNulls   = 16  // absent fields are written as explicit null
+	vtC20StyleUnknown = 32  // every object gets an unknown extra field
+	vtC20StyleCase    = 64  // object keys in another letter case (encoding/json matches keys case-insensitively)
+	vtC20StylePretty  = 128 // the document is indented (white space between the tokens)
 )
+
+// a quoted JSON object key for a struct field
+func vtC20K(name string, style int64) string {
+	if style&vtC20StyleCase != 0 {
+		if style&1 == 0 {
+			name = strings.ToUpper(name[:1]) + name[1:]
+		} else {
+			name = strings.ToUpper(name)
+		}
+	}
+	return strconv.Quote(name)
+}
 
 func vtC20LeafText(s *vtC20Schema, v int64) string {
 	switch s.scalar {
@@ -312,7 +338,13 @@ func vtC20LeafText(s *vtC20Schema, v int64) string {
 			return strconv.FormatInt(v/2, 10)
 		}
 		return strconv.Quote(fmt.Sprintf("%dM", (v-1)/2))
-	case vtC20Quantity:
+	case vtC20Quantity: // other legal spellings of the same quantity: suffix form, bare JSON number
+		switch {
+		case v > 0 && v%1000 == 0:
+			return strconv.Quote(strconv.FormatInt(v/1000, 10) + "k")
+		case v%4 == 1:
+			return strconv.FormatInt(v, 10)
+		}
 		return strconv.Quote(strconv.FormatInt(v, 10))
 	}
 	panic("verif C20: scalar kind")
@@ -334,11 +366,11 @@ func vtC20MembersX(s *vtC20Schema, c *vtC20Cur, style int64, nullsHere bool) []s
 		txt, absent := vtC20Render(f, c, style)
 		if absent {
 			if nullsHere {
-				ms = append(ms, strconv.Quote(f.name)+":null")
+				ms = append(ms, vtC20K(f.name, style)+":null")
 			}
 			continue
 		}
-		ms = append(ms, strconv.Quote(f.name)+":"+txt)
+		ms = append(ms, vtC20K(f.name, style)+":"+txt)
 	}
 	if style&vtC20StyleUnknown != 0 {
 		ms = append(ms, `"zzUnknown":{"a":[1,"x"]}`)
@@ -391,7 +423,7 @@ func vtC20SkipTree(c *vtC20Cur) {
 
 var vtC20Ops = []string{"", "In", "NotIn", "Exists", "DoesNotExist", "Bogus"}
 
-func vtC20Selector(c *vtC20Cur) (string, bool) {
+func vtC20Selector(c *vtC20Cur, style int64) (string, bool) {
 	if c.next() == 0 {
 		return "", true
 	}
@@ -413,18 +445,18 @@ func vtC20Selector(c *vtC20Cur) (string, bool) {
 		} else if op == 0 {
 			o = "In" // matchLabels needs exactly one value; otherwise an (invalid or multi-valued) In
 		}
-		e := fmt.Sprintf(`{"key":"k%d","operator":%q`, key, o)
+		e := fmt.Sprintf(`{%s:"k%d",%s:%q`, vtC20K("key", style), key, vtC20K("operator", style), o)
 		if nv > 0 {
-			e += `,"values":[` + strings.Join(vals, ",") + "]"
+			e += "," + vtC20K("values", style) + ":[" + strings.Join(vals, ",") + "]"
 		}
 		me = append(me, e+"}")
 	}
 	var ms []string
 	if len(ml) > 0 {
-		ms = append(ms, `"matchLabels":{`+strings.Join(ml, ",")+"}")
+		ms = append(ms, vtC20K("matchLabels", style)+":{"+strings.Join(ml, ",")+"}")
 	}
 	if len(me) > 0 {
-		ms = append(ms, `"matchExpressions":[`+strings.Join(me, ",")+"]")
+		ms = append(ms, vtC20K("matchExpressions", style)+":["+strings.Join(me, ",")+"]")
 	}
 	return "{" + strings.Join(ms, ",") + "}", false
 }
@@ -438,26 +470,62 @@ func vtC20SectionText(sec vtC20Section, c *vtC20Cur) (string, bool) {
 	case 1:
 		return []string{`{"` + sec.clusterK + `":{`, "", "[1,2]", "not json"}[style%4], true
 	}
+	lead, trail := vtC20Chars(c), vtC20Chars(c)
+	doc, ok := vtC20SectionDoc(sec, c, status, style)
+	return vtC20Frame(lead, doc) + doc + vtC20Frame(trail, doc), ok
+}
+
+// characters that may surround the JSON document of a section; codes 0..3 are JSON white space
+var vtC20FrameChars = []string{" ", "\n", "\t", "\r", "}", "]", ",", "{}", "null", "x", "\v", "\f", "\u00a0", "\ufeff",
+	"0", `""`, "// c\n", "<<<<<<< HEAD\n", "" /* 18: a copy of the document */, "[", "{", ":", "\x00"}
+
+func vtC20Chars(c *vtC20Cur) []int64 {
+	n := int(c.next())
+	out := make([]int64, n)
+	for i := range out {
+		out[i] = c.next()
+	}
+	return out
+}
+
+func vtC20Frame(codes []int64, doc string) string {
+	var sb strings.Builder
+	for _, k := range codes {
+		if k == 18 {
+			sb.WriteString(doc)
+		} else {
+			sb.WriteString(vtC20FrameChars[k])
+		}
+	}
+	return sb.String()
+}
+
+// the JSON document of a section with payload (status 2: with a wrongly typed member, 3: well-typed)
+func vtC20SectionDoc(sec vtC20Section, c *vtC20Cur, status, style int64) (string, bool) {
 	var ms []string
+	variant := int64(-1) // which wrongly typed member a status-2 document gets
+	if status == 2 {
+		variant = (style % 16) % 7
+	}
 	clusterTxt, absent := vtC20Render(sec.sch, c, style)
-	if status == 2 && style%3 == 2 {
+	if variant == 2 {
 		clusterTxt, absent = `"oops"`, false
 	}
 	if !absent {
-		ms = append(ms, strconv.Quote(sec.clusterK)+":"+clusterTxt)
+		ms = append(ms, vtC20K(sec.clusterK, style)+":"+clusterTxt)
 	} else if style&vtC20StyleNulls != 0 {
-		ms = append(ms, strconv.Quote(sec.clusterK)+":null")
+		ms = append(ms, vtC20K(sec.clusterK, style)+":null")
 	}
 	n := int(c.next())
 	var es []string
 	for i := 0; i < n; i++ {
 		// profile names are unique but NOT in ConfigMap order (precedence is the position, not the name)
-		em := []string{fmt.Sprintf(`"name":"n%d"`, (int64(i)*3+style)%7)}
-		selTxt, selNil := vtC20Selector(c)
+		em := []string{fmt.Sprintf(`%s:"n%d"`, vtC20K("name", style), (int64(i)*3+style)%7)}
+		selTxt, selNil := vtC20Selector(c, style)
 		if !selNil {
-			em = append(em, `"nodeSelector":`+selTxt)
+			em = append(em, vtC20K("nodeSelector", style)+":"+selTxt)
 		} else if style&vtC20StyleNulls != 0 {
-			em = append(em, `"nodeSelector":null`)
+			em = append(em, vtC20K("nodeSelector", style)+":null")
 		}
 		if sec.merge {
 			// the strategy is an embedded pointer: its fields are inlined into the entry. Even a
@@ -472,29 +540,85 @@ func vtC20SectionText(sec vtC20Section, c *vtC20Cur) (string, bool) {
 			c2 := c
 			txt, abs := vtC20Render(sec.sch, c2, style)
 			if !abs {
-				em = append(em, `"applications":`+txt)
+				em = append(em, vtC20K("applications", style)+":"+txt)
 			}
 		}
 		es = append(es, "{"+strings.Join(em, ",")+"}")
 	}
-	if status == 2 {
-		switch style % 3 {
-		case 0:
-			es = append(es, `{"name":7}`)
-		case 1:
-			es = append([]string{`{"name":7}`}, es...)
-		}
+	switch variant {
+	case 0:
+		es = append(es, `{"name":7}`)
+	case 1:
+		es = append([]string{`{"name":7}`}, es...)
 	}
 	if len(es) > 0 {
-		ms = append(ms, strconv.Quote(sec.nodesK)+":["+strings.Join(es, ",")+"]")
+		ms = append(ms, vtC20K(sec.nodesK, style)+":["+strings.Join(es, ",")+"]")
+	}
+	if variant >= 3 {
+		// a second (duplicate) cluster member whose only field has a value of the wrong JSON type or
+		// outside the range of the Go type: the text is valid JSON, json.Unmarshal reports a type error
+		bad, ok := vtC20BadMember(sec.sch, variant)
+		if !ok {
+			bad = `"oops"`
+		}
+		ms = append(ms, strconv.Quote(sec.clusterK)+":"+bad)
 	}
 	if style&vtC20StyleUnknown != 0 {
 		ms = append(ms, `"zzTop":3`)
 	}
+	doc := "{" + strings.Join(ms, ",") + "}"
 	if len(ms) == 0 && style&vtC20StyleNulls != 0 && status == 3 {
-		return "null", true
+		doc = "null"
 	}
-	return "{" + strings.Join(ms, ",") + "}", true
+	if style&vtC20StylePretty != 0 {
+		var buf bytes.Buffer
+		if err := json.Indent(&buf, []byte(doc), "", "\t"); err != nil {
+			panic("verif C20: rendered document is not JSON: " + doc)
+		}
+		doc = buf.String()
+	}
+	return doc, true
+}
+
+// a value of [s]'s type in which one scalar has a JSON value the Go type cannot take:
+// variant 3 a fraction for an integer, 4 an integer beyond the field's range, 5 a string for an
+// integer, 6 a number for a bool (or for a string)
+func vtC20BadMember(s *vtC20Schema, variant int64) (string, bool) {
+	want := func(l *vtC20Schema) (string, bool) {
+		switch {
+		case variant == 3 && l.scalar == vtC20Int && !l.req:
+			return "1.5", true
+		case variant == 4 && l.scalar == vtC20Int && !l.req:
+			if l.bits == 32 {
+				return "2147483648", true
+			}
+			return "9223372036854775808", true
+		case variant == 5 && l.scalar == vtC20Int && !l.req:
+			return `"12"`, true
+		case variant == 6 && (l.scalar == vtC20Bool || l.scalar == vtC20String) && !l.req:
+			return "1", true
+		}
+		return "", false
+	}
+	var walk func(s *vtC20Schema) (string, bool)
+	walk = func(s *vtC20Schema) (string, bool) {
+		switch s.kind {
+		case vtC20Leaf:
+			return want(s)
+		case vtC20Obj:
+			for _, f := range s.fields {
+				if txt, ok := walk(f); ok {
+					return "{" + strconv.Quote(f.name) + ":" + txt + "}", true
+				}
+			}
+		case vtC20Arr:
+			if txt, ok := walk(s.elem); ok {
+				return "[" + txt + "]", true
+			}
+		}
+		return "", false
+	}
+	return walk(s)
 }
 
 func vtC20ConfigMap(c *vtC20Cur) *corev1.ConfigMap {
@@ -513,35 +637,96 @@ func vtC20ConfigMap(c *vtC20Cur) *corev1.ConfigMap {
 
 // ---------------------------------------------------------------- exec
 
+// the Node object i of the case (nil = does not exist), consuming "0 | 1 nlabels (k v)* bwkind bwval bwstyle"
+func vtC20Node(c *vtC20Cur, i int) *corev1.Node {
+	if c.next() == 0 {
+		return nil
+	}
+	nl := int(c.next())
+	lbl := map[string]string{}
+	for j := 0; j < nl; j++ {
+		k, v := c.next(), c.next()
+		lbl[fmt.Sprintf("k%d", k)] = fmt.Sprintf("v%d", v)
+	}
+	node := &corev1.Node{ObjectMeta: metav1.ObjectMeta{Name: fmt.Sprintf("node%02d", i), Labels: lbl}}
+	kind, val, style := c.next(), c.next(), c.next()
+	switch kind {
+	case 1:
+		txt := strconv.FormatInt(val, 10)
+		switch style % 3 {
+		case 1:
+			if val > 0 && val%1000 == 0 {
+				txt = strconv.FormatInt(val/1000, 10) + "k"
+			}
+		case 2:
+			txt += ".0"
+		}
+		if q, err := resource.ParseQuantity(txt); err != nil || q.Value() != val {
+			panic("verif C20: bandwidth spelling " + txt)
+		}
+		node.Annotations = map[string]string{extension.AnnotationNodeBandwidth: txt}
+	case 2:
+		txt := []string{"fast", "", "12 Mbps", "--3", "1Gb", "1e"}[style%6]
+		if _, err := resource.ParseQuantity(txt); err == nil {
+			panic("verif C20: not a malformed quantity: " + txt)
+		}
+		node.Annotations = map[string]string{extension.AnnotationNodeBandwidth: txt}
+	}
+	return node
+}
+
 func vtC20Exec(in []int64) []int64 {
 	c := &vtC20Cur{in: in}
 	nsec := int(c.next())
 	for i := 0; i < nsec; i++ {
 		c.next()
+		c.next()
 		vtC20SkipTree(c) // the built-in defaults are the implementation's own business
 	}
 	nn := int(c.next())
-	nodes := make([]*corev1.Node, nn)
-	for i := range nodes {
-		nl := int(c.next())
-		lbl := map[string]string{}
-		for j := 0; j < nl; j++ {
-			k, v := c.next(), c.next()
-			lbl[fmt.Sprintf("k%d", k)] = fmt.Sprintf("v%d", v)
+	names := make([]string, nn)
+	var objs []client.Object
+	for i := 0; i < nn; i++ {
+		names[i] = fmt.Sprintf("node%02d", i)
+		if node := vtC20Node(c, i); node != nil {
+			objs = append(objs, node)
 		}
-		nodes[i] = &corev1.Node{ObjectMeta: metav1.ObjectMeta{Name: fmt.Sprintf("node%02d", i), Labels: lbl}}
 	}
 
+	strict := c.next() != 0
+
 	ctx := context.TODO()
-	objs := make([]client.Object, len(nodes))
-	for i := range nodes {
-		objs[i] = nodes[i].DeepCopy()
-	}
-	cl := fake.NewClientBuilder().WithScheme(vtC20Scheme).WithObjects(objs...).Build()
-	handler := NewSLOCfgHandlerForConfigMapEvent(cl, DefaultSLOCfg(), &record.FakeRecorder{})
-	rec := &NodeSLOReconciler{Client: cl, sloCfgCache: handler, Scheme: vtC20Scheme, Recorder: &record.FakeRecorder{}}
+	// a plain object tracker (no managed-fields bookkeeping) over a scheme with the two API groups
+	// the controller touches: building the default one costs more than running the whole case
+	tracker := k8stesting.NewObjectTracker(vtC20Scheme, vtC20Codecs.UniversalDecoder())
+	cl := fake.NewClientBuilder().WithScheme(vtC20Scheme).WithObjectTracker(tracker).WithObjects(objs...).Build()
 	q := workqueue.NewTypedRateLimitingQueue[reconcile.Request](workqueue.DefaultTypedControllerRateLimiter[reconcile.Request]())
 	defer q.ShutDown()
+	// the wiring of SetupWithManager without the manager: ConfigMap events -> the handler,
+	// Node events -> nodemetric.EnqueueRequestForNode, NodeSLO events -> For(&NodeSLO{}) with
+	// GenerationChangedPredicate
+	var handler *SLOCfgHandlerForConfigMapEvent
+	var rec *NodeSLOReconciler
+	nodeHandler := &nodemetric.EnqueueRequestForNode{Client: cl}
+	sloHandler := &crhandler.EnqueueRequestForObject{}
+	getNode := func(i int) *corev1.Node {
+		node := &corev1.Node{}
+		if err := cl.Get(ctx, types.NamespacedName{Name: names[i]}, node); err != nil {
+			return nil
+		}
+		return node
+	}
+	start := func() { // a controller process starts: fresh handler and reconciler, every existing Node is announced
+		handler = NewSLOCfgHandlerForConfigMapEvent(cl, DefaultSLOCfg(), &record.FakeRecorder{})
+		rec = &NodeSLOReconciler{Client: cl, sloCfgCache: handler, Scheme: vtC20Scheme, Recorder: &record.FakeRecorder{}}
+		for i := range names {
+			if node := getNode(i); node != nil {
+				nodeHandler.Create(ctx, event.TypedCreateEvent[client.Object]{Object: node}, q)
+			}
+		}
+	}
+	handler = NewSLOCfgHandlerForConfigMapEvent(cl, DefaultSLOCfg(), &record.FakeRecorder{})
+	rec = &NodeSLOReconciler{Client: cl, sloCfgCache: handler, Scheme: vtC20Scheme, Recorder: &record.FakeRecorder{}}
 
 	// the informer cache (the client) holds the slo-controller ConfigMap the way the API server would
 	setInformer := func(cm *corev1.ConfigMap) {
@@ -555,10 +740,17 @@ func vtC20Exec(in []int64) []int64 {
 			}
 		}
 	}
+	// the result of Reconcile (error / requeue) is not what the property is about: what counts is
+	// what the node has been delivered afterwards
 	reconcileOne := func(req reconcile.Request) {
-		if _, err := rec.Reconcile(ctx, req); err != nil {
-			panic(err)
+		_, _ = rec.Reconcile(ctx, req)
+	}
+	getSLO := func(i int) *slov1alpha1.NodeSLO {
+		nodeSLO := &slov1alpha1.NodeSLO{}
+		if err := cl.Get(ctx, types.NamespacedName{Name: names[i]}, nodeSLO); err != nil {
+			return nil
 		}
+		return nodeSLO
 	}
 
 	var obs []int64
@@ -566,7 +758,11 @@ func vtC20Exec(in []int64) []int64 {
 	for o := 0; o < nops; o++ {
 		kind := c.next()
 		var cm *corev1.ConfigMap
-		if kind != 6 {
+		var variant int64
+		if kind == 4 {
+			variant = c.next()
+		}
+		if kind <= 5 {
 			cm = vtC20ConfigMap(c)
 		}
 		switch kind {
@@ -584,34 +780,113 @@ func vtC20Exec(in []int64) []int64 {
 		case 3:
 			setInformer(nil)
 			handler.Delete(ctx, event.TypedDeleteEvent[client.Object]{Object: cm}, q)
-		case 4:
+		case 4: // events the ConfigMap handler must ignore
 			other := cm.DeepCopy()
-			other.Name = "some-other-config"
-			handler.Create(ctx, event.TypedCreateEvent[client.Object]{Object: other}, q)
+			switch variant % 6 {
+			case 0:
+				other.Name = "some-other-config"
+				handler.Create(ctx, event.TypedCreateEvent[client.Object]{Object: other}, q)
+			case 1: // the same name in another namespace
+				other.Namespace = "default"
+				handler.Create(ctx, event.TypedCreateEvent[client.Object]{Object: other}, q)
+			case 2:
+				other.Name = sloconfig.SLOCtrlConfigMap + "-canary"
+				old := other.DeepCopy()
+				old.Data["zz-previous"] = "x"
+				handler.Update(ctx, event.TypedUpdateEvent[client.Object]{ObjectOld: old, ObjectNew: other}, q)
+			case 3:
+				other.Namespace = sloconfig.ConfigNameSpace + "-staging"
+				old := other.DeepCopy()
+				old.Data["zz-previous"] = "x"
+				handler.Update(ctx, event.TypedUpdateEvent[client.Object]{ObjectOld: old, ObjectNew: other}, q)
+			case 4:
+				handler.Generic(ctx, event.TypedGenericEvent[client.Object]{Object: cm}, q)
+			case 5: // an object of another kind with the ConfigMap's name
+				sec := &corev1.Secret{ObjectMeta: cm.ObjectMeta}
+				handler.Create(ctx, event.TypedCreateEvent[client.Object]{Object: sec}, q)
+			}
 		case 5:
 			setInformer(cm)
 			handler.IsCfgAvailable()
 		case 6:
 			setInformer(nil)
 			handler.IsCfgAvailable()
+		case 7:
+			start()
+		case 8:
+			i := int(c.next())
+			node := vtC20Node(c, i)
+			old := getNode(i)
+			switch {
+			case node == nil && old != nil:
+				if err := cl.Delete(ctx, old); err != nil {
+					panic(err)
+				}
+				nodeHandler.Delete(ctx, event.TypedDeleteEvent[client.Object]{Object: old}, q)
+			case node != nil && old != nil:
+				upd := old.DeepCopy()
+				upd.Labels, upd.Annotations = node.Labels, node.Annotations
+				if err := cl.Update(ctx, upd); err != nil {
+					panic(err)
+				}
+				nodeHandler.Update(ctx, event.TypedUpdateEvent[client.Object]{ObjectOld: old, ObjectNew: upd}, q)
+			case node != nil:
+				if err := cl.Create(ctx, node); err != nil {
+					panic(err)
+				}
+				nodeHandler.Create(ctx, event.TypedCreateEvent[client.Object]{Object: node}, q)
+			}
+		case 9:
+			if node := getNode(int(c.next())); node != nil {
+				nodeHandler.Create(ctx, event.TypedCreateEvent[client.Object]{Object: node}, q)
+			}
+		case 10:
+			if nodeSLO := getSLO(int(c.next())); nodeSLO != nil {
+				if err := cl.Delete(ctx, nodeSLO); err != nil {
+					panic(err)
+				}
+				if (predicate.GenerationChangedPredicate{}).Delete(event.DeleteEvent{Object: nodeSLO}) {
+					sloHandler.Delete(ctx, event.DeleteEvent{Object: nodeSLO}, q)
+				}
+			}
+		case 11:
+			i, style := int(c.next()), c.next()
+			if nodeSLO := getSLO(i); nodeSLO != nil {
+				upd := nodeSLO.DeepCopy()
+				vtC20Scribble(&upd.Spec, style)
+				upd.Generation++ // the API server bumps metadata.generation on a spec change
+				if err := cl.Update(ctx, upd); err != nil {
+					panic(err)
+				}
+				ev := event.UpdateEvent{ObjectOld: nodeSLO, ObjectNew: upd}
+				if (predicate.GenerationChangedPredicate{}).Update(ev) {
+					sloHandler.Update(ctx, ev, q)
+				}
+			}
 		default:
 			panic("verif C20: bad op kind")
 		}
-		// delivery: first whatever the handler enqueued, then every probe node (node events and
-		// resyncs reconcile nodes at any time); the REAL Reconcile creates / updates the NodeSLO
+		// delivery. strict: exactly the requests the handlers put on the work queue are reconciled;
+		// otherwise every probe node is (ConfigMap events enqueue all nodes; node events, NodeSLO
+		// events and resyncs reconcile nodes at any time). The REAL Reconcile creates / updates /
+		// deletes the NodeSLO.
 		for q.Len() > 0 {
 			req, _ := q.Get()
-			reconcileOne(req)
+			if strict {
+				reconcileOne(req)
+			}
 			q.Forget(req)
 			q.Done(req)
 		}
-		for _, node := range nodes {
-			reconcileOne(reconcile.Request{NamespacedName: types.NamespacedName{Name: node.Name}})
+		if !strict {
+			for _, name := range names {
+				reconcileOne(reconcile.Request{NamespacedName: types.NamespacedName{Name: name}})
+			}
 		}
 		// the observable is what was DELIVERED: NodeSLO.Spec read back from the API (fake client)
-		for _, node := range nodes {
-			nodeSLO := &slov1alpha1.NodeSLO{}
-			if err := cl.Get(ctx, types.NamespacedName{Name: node.Name}, nodeSLO); err != nil {
+		for i := range names {
+			nodeSLO := getSLO(i)
+			if nodeSLO == nil {
 				obs = append(obs, -888888)
 				continue
 			}
@@ -626,12 +901,51 @@ func vtC20Exec(in []int64) []int64 {
 	return obs
 }
 
+// what a third party may do to a NodeSLO spec behind the controller's back
+func vtC20Scribble(spec *slov1alpha1.NodeSLOSpec, style int64) {
+	i64 := func(v int64) *int64 { return &v }
+	switch style % 5 {
+	case 0:
+		spec.CPUBurstStrategy = nil
+	case 1:
+		if spec.ResourceUsedThresholdWithBE == nil {
+			spec.ResourceUsedThresholdWithBE = &slov1alpha1.ResourceThresholdStrategy{}
+		}
+		spec.ResourceUsedThresholdWithBE.CPUSuppressThresholdPercent = i64(12)
+		spec.ResourceUsedThresholdWithBE.MemoryEvictLowerPercent = i64(34)
+	case 2:
+		*spec = slov1alpha1.NodeSLOSpec{}
+	case 3: // only ADDS settings the layering does not give (a comparison that tolerates extra fields misses it)
+		if spec.ResourceQOSStrategy == nil {
+			spec.ResourceQOSStrategy = &slov1alpha1.ResourceQOSStrategy{}
+		}
+		if spec.ResourceQOSStrategy.LSRClass == nil {
+			spec.ResourceQOSStrategy.LSRClass = &slov1alpha1.ResourceQOS{}
+		}
+		if spec.ResourceQOSStrategy.LSRClass.CPUQOS == nil {
+			spec.ResourceQOSStrategy.LSRClass.CPUQOS = &slov1alpha1.CPUQOSCfg{}
+		}
+		if spec.ResourceQOSStrategy.LSRClass.CPUQOS.GroupIdentity == nil {
+			spec.ResourceQOSStrategy.LSRClass.CPUQOS.GroupIdentity = i64(2)
+		}
+		if spec.SystemStrategy != nil && spec.SystemStrategy.SchedIdleSaverWmark == nil {
+			spec.SystemStrategy.SchedIdleSaverWmark = i64(77)
+		}
+		spec.HostApplications = append(spec.HostApplications, slov1alpha1.HostApplicationSpec{Name: "s99"})
+	case 4:
+		spec.SystemStrategy = nil
+		spec.HostApplications = nil
+	}
+}
+
 var vtC20Scheme = func() *runtime.Scheme {
 	s := runtime.NewScheme()
-	_ = clientgoscheme.AddToScheme(s)
+	_ = corev1.AddToScheme(s)
 	_ = slov1alpha1.AddToScheme(s)
 	return s
 }()
+
+var vtC20Codecs = serializer.NewCodecFactory(vtC20Scheme)
 
 // ---------------------------------------------------------------- generator
 
@@ -662,6 +976,7 @@ func vtC20GenLeaf(s *vtC20Schema, r *rand.Rand, layer int64) int64 {
 		if s.bits == 64 {
 			return vtQty(r, int64(1)<<62)
 		}
+		return []int64{2147483647, -2147483648, 2147483646}[r.Intn(3)] // the ends of an int32 field
 	}
 	return layer*100 + int64(r.Intn(5))
 }
@@ -774,10 +1089,17 @@ func vtC20GenCM(r *rand.Rand, g vtC20GenCfg, style string, out *[]int64) {
 		if r.Intn(8) == 0 {
 			st += vtC20StyleUnknown
 		}
+		if r.Intn(9) == 0 {
+			st += vtC20StyleCase
+		}
+		if r.Intn(9) == 0 {
+			st += vtC20StylePretty
+		}
 		*out = append(*out, status, st)
 		if status < 2 {
 			continue
 		}
+		vtC20GenFrame(r, out)
 		if sec.merge && r.Intn(7) == 0 {
 			*out = append(*out, 2) // no clusterStrategy
 		} else {
@@ -796,6 +1118,114 @@ func vtC20GenCM(r *rand.Rand, g vtC20GenCfg, style string, out *[]int64) {
 	}
 }
 
+// characters around the JSON document: mostly none; sometimes white space only (still one JSON
+// value); sometimes something else before or — what a streaming decoder would not notice — after it
+func vtC20GenFrame(r *rand.Rand, out *[]int64) {
+	ws := func() []int64 {
+		n := 1 + r.Intn(3)
+		l := make([]int64, n)
+		for i := range l {
+			l[i] = int64(r.Intn(4))
+		}
+		return l
+	}
+	junk := func() []int64 {
+		l := []int64{int64(4 + r.Intn(len(vtC20FrameChars)-4))}
+		if r.Intn(3) == 0 {
+			l = append(ws(), l...)
+		}
+		if r.Intn(3) == 0 {
+			l = append(l, ws()...)
+		}
+		return l
+	}
+	var lead, trail []int64
+	switch k := r.Intn(100); {
+	case k < 80:
+	case k < 88:
+		if r.Intn(2) == 0 {
+			lead = ws()
+		}
+		if lead == nil || r.Intn(2) == 0 {
+			trail = ws()
+		}
+	case k < 96:
+		trail = junk()
+		if r.Intn(4) == 0 {
+			lead = ws()
+		}
+	case k < 99:
+		lead = junk()
+	default:
+		lead, trail = junk(), junk()
+	}
+	*out = append(*out, int64(len(lead)))
+	*out = append(*out, lead...)
+	*out = append(*out, int64(len(trail)))
+	*out = append(*out, trail...)
+}
+
+// a generated Node: nil = absent; labels as (key value)*, bandwidth annotation as (kind value style)
+type vtC20GenNodeT struct {
+	kv []int64
+	bw [3]int64
+}
+
+func vtC20GenNode(r *rand.Rand, pAbsent int) *vtC20GenNodeT {
+	if r.Intn(100) < pAbsent {
+		return nil
+	}
+	n := &vtC20GenNodeT{}
+	for k := 0; k < 3; k++ {
+		if r.Intn(3) != 0 {
+			n.kv = append(n.kv, int64(k), int64(r.Intn(3)))
+		}
+	}
+	switch k := r.Intn(100); {
+	case k < 68:
+	case k < 88:
+		n.bw = [3]int64{1, []int64{0, 1, 500, 1000, 2500, 25000, 100000000, 1 << 40}[r.Intn(8)], int64(r.Intn(6))}
+	default:
+		n.bw = [3]int64{2, 0, int64(r.Intn(6))}
+	}
+	return n
+}
+
+func (n *vtC20GenNodeT) emit(out *[]int64) {
+	if n == nil {
+		*out = append(*out, 0)
+		return
+	}
+	*out = append(*out, 1, int64(len(n.kv)/2))
+	*out = append(*out, n.kv...)
+	*out = append(*out, n.bw[:]...)
+}
+
+func (n *vtC20GenNodeT) sameLabels(o *vtC20GenNodeT) bool {
+	if len(n.kv) != len(o.kv) {
+		return false
+	}
+	for i := range n.kv {
+		if n.kv[i] != o.kv[i] {
+			return false
+		}
+	}
+	return true
+}
+
+// index of the field the node's bandwidth annotation overrides (getSystemConfigSpec), -1 = none
+func vtC20BwIndex(sec vtC20Section) int64 {
+	if sec.key != configuration.SystemConfigKey {
+		return -1
+	}
+	for i, f := range sec.sch.fields {
+		if f.name == "totalNetworkBandwidth" {
+			return int64(i)
+		}
+	}
+	panic("verif C20: SystemStrategy has no totalNetworkBandwidth")
+}
+
 func vtC20Defaults() []int64 {
 	var out []int64
 	out = append(out, int64(len(vtC20Sections)))
@@ -807,7 +1237,7 @@ func vtC20Defaults() []int64 {
 		[]slov1alpha1.HostApplicationSpec{},
 	}
 	for i, sec := range vtC20Sections {
-		out = append(out, vtB(sec.merge))
+		out = append(out, vtB(sec.merge), vtC20BwIndex(sec))
 		vtC20Flat(sec.sch, reflect.ValueOf(dflt[i]), &out)
 	}
 	return out
@@ -823,29 +1253,73 @@ func vtC20Gen(r *rand.Rand, i int) (string, []int64) {
 		g = vtC20GenCfg{pLeaf: 0.7, pObj: 0.6, pArr: 0.5, pMap: 0.6, pReq: 0.8}
 	}
 	in := vtC20Defaults()
+	// strict: only what the event handlers enqueue is reconciled. Such a history looks like production:
+	// it starts with the controller start, node 0 exists throughout (every restart finds a Node), and no
+	// Node update changes the bandwidth annotation alone (the Node handler ignores such an update)
+	strict := r.Intn(3) == 0
 	nn := 1 + r.Intn(3)
 	in = append(in, int64(nn))
+	cur := make([]*vtC20GenNodeT, nn)
 	for n := 0; n < nn; n++ {
-		var kv []int64
-		for k := 0; k < 3; k++ {
-			if r.Intn(3) != 0 {
-				kv = append(kv, int64(k), int64(r.Intn(3)))
-			}
+		pAbsent := 8
+		if strict && n == 0 {
+			pAbsent = 0
 		}
-		in = append(in, int64(len(kv)/2))
-		in = append(in, kv...)
+		cur[n] = vtC20GenNode(r, pAbsent)
+		cur[n].emit(&in)
 	}
-	nops := 1 + r.Intn(4)
+	in = append(in, vtB(strict))
+	nops := 1 + r.Intn(5)
+	if strict {
+		nops++
+	}
 	in = append(in, int64(nops))
+	var lastCM []int64
 	for o := 0; o < nops; o++ {
-		kind := []int64{0, 0, 1, 1, 1, 1, 2, 3, 4, 5, 6}[r.Intn(11)]
+		kind := []int64{0, 0, 1, 1, 1, 1, 1, 2, 3, 4, 5, 6, 7, 8, 8, 8, 9, 10, 11}[r.Intn(19)]
 		if o == 0 && r.Intn(2) == 0 {
 			kind = []int64{0, 5, 5, 6}[r.Intn(4)]
 		}
-		in = append(in, kind)
-		if kind != 6 {
-			vtC20GenCM(r, g, style, &in)
+		if strict && o == 0 {
+			kind = 7
 		}
+		in = append(in, kind)
+		switch kind {
+		case 0, 1, 2, 3, 4, 5:
+			if kind == 4 {
+				in = append(in, int64(r.Intn(6)))
+			}
+			// sometimes the very ConfigMap of the previous ConfigMap event again (duplicate / resync)
+			if lastCM != nil && kind != 4 && r.Intn(6) == 0 {
+				in = append(in, lastCM...)
+				break
+			}
+			at := len(in)
+			vtC20GenCM(r, g, style, &in)
+			if kind != 4 {
+				lastCM = append([]int64(nil), in[at:]...)
+			}
+		case 8:
+			i := r.Intn(nn)
+			pAbsent := 25
+			if strict && i == 0 {
+				pAbsent = 0
+			}
+			nd := vtC20GenNode(r, pAbsent)
+			if strict && nd != nil && cur[i] != nil && nd.sameLabels(cur[i]) {
+				nd.bw = cur[i].bw
+			}
+			cur[i] = nd
+			in = append(in, int64(i))
+			nd.emit(&in)
+		case 9, 10:
+			in = append(in, int64(r.Intn(nn)))
+		case 11:
+			in = append(in, int64(r.Intn(nn)), int64(r.Intn(10)))
+		}
+	}
+	if strict {
+		style += "-strict"
 	}
 	return style, in
 }
